@@ -635,18 +635,21 @@ func (ex *Exec) timeType() types.Type { return ex.pkgType("time", "Time") }
 
 func stubTimeNow(ex *Exec, fn *ssa.Function, args []Value) []Value {
 	ts := ex.ts
+	if ex.clockFrozen {
+		// harness asked for a clock that stands still at a fixed instant (2024-01-01 00:00:00 UTC)
+		sec, nsec := ts.Const(64, 63839664000), ts.Const(64, 0)
+		ex.inputs = append(ex.inputs, inputRec{Label: "time.Now", Kind: "clock", Terms: []*Term{sec, nsec}})
+		return []Value{StructV{f: []Value{nsec, sec, PtrV{}}}}
+	}
 	ex.nowSeq++
 	sec := ts.Sym(64, fmt.Sprintf("now.sec#%d", ex.nowSeq))
-	nsec := ts.Sym(64, fmt.Sprintf("now.nsec#%d", ex.nowSeq))
+	// bound: instants are whole seconds (nanoseconds 0); a sane range of seconds since year 1
+	nsec := ts.Const(64, 0)
 	ex.inputs = append(ex.inputs, inputRec{Label: "time.Now", Kind: "clock", Terms: []*Term{sec, nsec}})
-	// sane range: seconds since year 1 of some date between 2000 and 2100; nsec < 1e9
-	ex.assume(ts.Cmp(OpUlt, nsec, ts.Const(64, 1000000000)))
-	ex.assume(ts.Cmp(OpUle, ts.Const(64, 63000000000), sec))
-	ex.assume(ts.Cmp(OpUle, sec, ts.Const(64, 66000000000)))
+	ex.assume(ts.Cmp(OpUle, ts.Const(64, 63839664000), sec))
+	ex.assume(ts.Cmp(OpUle, sec, ts.Const(64, 63839664000+1000000)))
 	if ex.lastNow[0] != nil {
-		// non-decreasing
-		later := ts.BOr(ts.Cmp(OpUlt, ex.lastNow[0], sec), ts.BAnd(ts.Eq(ex.lastNow[0], sec), ts.Cmp(OpUle, ex.lastNow[1], nsec)))
-		ex.assume(later)
+		ex.assume(ts.Cmp(OpUle, ex.lastNow[0], sec)) // non-decreasing
 	}
 	ex.lastNow = [2]*Term{sec, nsec}
 	// time.Time{wall: nsec (no monotonic), ext: seconds since year 1, loc: nil (UTC)}
